@@ -17,6 +17,11 @@ fn acts() -> Vec<MAct> {
     for s in ["0", "1", "15", "16", "-1", "x", "99999999999999999999"] {
         a.push(mcmd(0, &["SELECT", s]));
     }
+    // command names are case-insensitive on every path (a seeded change that recognised a queued SELECT only in
+    // upper case went unnoticed while the alphabet spelled it one way)
+    a.push(mcmd(0, &["select", "1"]));
+    a.push(mcmd(0, &["Select", "15"]));
+    a.push(mcmd(0, &["set", "k", "lower"]));
     for c in [
         vec!["SET", "k", "v"], vec!["LPUSH", "k", "a"], vec!["SADD", "k", "m"], vec!["HSET", "k", "f", "v"], vec!["ZADD", "k", "1", "m"], vec!["XADD", "k", "1-1", "f", "v"],
         vec!["DEL", "k"], vec!["RENAME", "k", "j"], vec!["EXPIRE", "k", "100"], vec!["INCR", "n"], vec!["FLUSHDB"], vec!["FLUSHALL"], vec!["MULTI"], vec!["EXEC"],
